@@ -2,6 +2,7 @@ SPECIFICATION Spec
 CONSTANTS
   MaxFields = 2
   EscAbsCheck = TRUE
+  DupCheck = TRUE
   RangeCheck = FALSE
 INVARIANT Total
 INVARIANT Rejects
